@@ -21,6 +21,7 @@ pub fn run(ctx: &mut Ctx) {
     }
     concurrent_dials_one_cancelled_on_real_tcp(ctx, false, 1);
     known_address_naming_two_peers_on_real_tcp(ctx);
+    odd_addresses_on_real_tcp(ctx);
     super::conn::dial_failures_reach_a_clogged_protocol(ctx, false);
     super::conn::dial_failures_reach_a_clogged_protocol(ctx, true);
 }
@@ -106,6 +107,127 @@ fn known_address_naming_two_peers_on_real_tcp(ctx: &mut Ctx) {
         Ok(Err((sig, what))) if sig.starts_with("machinery/") => ctx.machinery_error(format!("{sig}: {what}")),
         Ok(Err((sig, what))) => ctx.violation(Violation { signature: sig, what, replay }),
         Err(_) => ctx.machinery_error("adversarial-address TCP scenario: harness thread panicked outside the guarded region"),
+    }
+}
+
+/// Unusual but well-formed addresses through the real `TcpTransport` (E4): `dial_address(<odd address>/p2p/R)` on node L,
+/// 12 s of virtual time, then `dial_address(<R's real address>)`. Whatever the transport makes of the odd address —
+/// refuse the call, fail the dial, or reach R after all — the peer must not be left wedged: a refused call owes nothing and
+/// changes nothing, an accepted one ends in exactly one outcome, and R is connected at the end.
+fn odd_addresses_on_real_tcp(ctx: &mut Ctx) {
+    let shapes: [&str; 8] = [
+        "/ip4/0.0.0.0/tcp/{port}",
+        "/ip6/::/tcp/{port}",
+        "/ip4/127.0.0.1/tcp/1",
+        "/ip4/127.0.0.1/tcp/0",
+        "/ip4/255.255.255.255/tcp/{port}",
+        "/ip4/224.0.0.1/tcp/{port}",
+        "/ip6/::1/tcp/{port}",
+        "/dns4/localhost/tcp/{port}",
+    ];
+    for shape in shapes {
+        let result = std::thread::spawn(move || -> Result<String, (String, String)> {
+            let rt = crate::env::driver::runtime_io(5);
+            let r = catch_unwind(AssertUnwindSafe(|| {
+                rt.block_on(async {
+                    let (_park_tx, park_rx) = std::sync::mpsc::channel::<()>();
+                    let _parked = tokio::task::spawn_blocking(move || {
+                        let _ = park_rx.recv();
+                    });
+                    let mut w = World::new();
+                    let mut handles = Vec::new();
+                    let mut mk = || {
+                        let (m, h) = crate::env::node::Monitor::new("/verif/x/1");
+                        handles.push(h);
+                        ConfigBuilder::new().with_user_protocol(m).with_keep_alive_timeout(Duration::from_secs(100_000))
+                    };
+                    let l = w.add_tcp_node(65, mk()).expect("tcp node");
+                    let r = w.add_tcp_node(66, mk()).expect("tcp node");
+                    async fn settle(w: &mut World) {
+                        loop {
+                            w.run_to_quiescence(1_000_000);
+                            if !crate::mc::e2::settle_io(w).await {
+                                break;
+                            }
+                        }
+                    }
+                    settle(&mut w).await;
+                    let peer_r = w.nodes[r].peer;
+                    let addr_r = w.nodes[r].address.clone();
+                    let port = addr_r.iter().find_map(|p| if let multiaddr::Protocol::Tcp(port) = p { Some(port) } else { None }).unwrap_or(1);
+                    let odd: multiaddr::Multiaddr = shape.replace("{port}", &port.to_string()).parse().map_err(|e| ("machinery/odd-address".to_string(), format!("{shape}: {e:?}")))?;
+                    let odd = odd.with(multiaddr::Protocol::P2p(peer_r.into()));
+                    let _ = w.nodes[l].cmd.send(NodeCmd::DialAddress(odd.clone()));
+                    for _ in 0..12 {
+                        settle(&mut w).await;
+                        tokio::time::advance(Duration::from_secs(1)).await;
+                    }
+                    settle(&mut w).await;
+                    let _ = w.nodes[l].cmd.send(NodeCmd::DialAddress(addr_r.clone()));
+                    for _ in 0..12 {
+                        settle(&mut w).await;
+                        tokio::time::advance(Duration::from_secs(1)).await;
+                    }
+                    settle(&mut w).await;
+                    let log: Vec<String> = w.nodes[l]
+                        .log
+                        .lock()
+                        .iter()
+                        .map(|e| match e {
+                            NodeLog::Event(s) => s.chars().take(100).collect(),
+                            NodeLog::DialResult(_, r) => format!("dial -> {r:?}"),
+                        })
+                        .collect();
+                    let desc = format!("first dial_address({odd}), 12 s later dial_address({addr_r}); node log {log:?}");
+                    let results: Vec<&String> = log.iter().filter(|s| s.starts_with("dial -> ")).collect();
+                    if results.len() != 2 {
+                        return Err(("machinery/odd-address".to_string(), format!("expected two dial results; {desc}")));
+                    }
+                    let first_ok = results[0].starts_with("dial -> Ok");
+                    let second = results[1].as_str();
+                    let established = log.iter().filter(|s| s.starts_with("ConnectionEstablished")).count();
+                    let failures = log.iter().filter(|s| s.starts_with("DialFailure") || s.starts_with("ListDialFailures") || s.starts_with("OpenFailure")).count();
+                    let kind = shape.split('/').take(3).collect::<Vec<_>>().join("_").replace([':', '.'], "");
+                    if !first_ok && failures > 0 && established == 0 && second.starts_with("dial -> Err") {
+                        // nothing wrong yet: refused twice (e.g. an address the node cannot dial at all)
+                    }
+                    if established == 0 {
+                        let sig = if second.starts_with("dial -> Ok") { "c05/tcp/wedged-after-odd-address/dial-ok-but-no-outcome" } else { "c05/tcp/wedged-after-odd-address/dial-refused" };
+                        return Err((format!("{sig}/{kind}"), format!("R is reachable at its real address and was dialed there, yet no connection was ever reported; {desc}")));
+                    }
+                    if established > 1 {
+                        return Err((format!("c05/tcp/two-connections-reported/{kind}"), desc));
+                    }
+                    // an accepted first dial ends in exactly one outcome: the connection, or one failure
+                    let connected_by_first = second.contains("AlreadyConnected");
+                    if first_ok && !connected_by_first && failures != 1 {
+                        return Err((format!("c05/tcp/no-single-outcome/odd-address/{kind}"), format!("the first dial was accepted and did not connect: expected exactly one failure report, saw {failures}; {desc}")));
+                    }
+                    if !first_ok && failures != 0 {
+                        return Err((format!("c05/tcp/failure-report-for-a-refused-dial/{kind}"), desc));
+                    }
+                    Ok(desc)
+                })
+            }));
+            match r {
+                Ok(x) => x,
+                Err(_) => {
+                    let msg = take_panic();
+                    Err((format!("panic/{}", panic_site(&msg)), format!("panic while dialing an unusual address ({shape}): {msg}")))
+                }
+            }
+        })
+        .join();
+        let replay = json!({"kind": "odd-address-on-real-tcp", "shape": shape});
+        match result {
+            Ok(Ok(_)) => {
+                ctx.cov_add("traces_validated_against_impl", 1);
+                ctx.cov_add("tcp_odd_address_scenarios", 1);
+            }
+            Ok(Err((sig, what))) if sig.starts_with("machinery/") => ctx.machinery_error(format!("{sig}: {what}")),
+            Ok(Err((sig, what))) => ctx.violation(Violation { signature: sig, what, replay }),
+            Err(_) => ctx.machinery_error("odd-address TCP scenario: harness thread panicked outside the guarded region"),
+        }
     }
 }
 
